@@ -92,6 +92,7 @@ func (x *Exec) concTrusted(st *State, fn *ssa.Function, name string, args []*Ter
 			x.store(okS, args[0], args[2], 0, "atomic cas")
 			x.frameOff = saved
 			okS.atomicWrites++
+			okS.lastCASOld = cur
 			res = append(res, Outcome{st: okS, kind: ORet, val: c.True})
 		}
 		if failS != nil {
@@ -189,6 +190,11 @@ func (x *Exec) interceptConc(st *State, name string, args []*Term) ([]Outcome, b
 	case "Holding":
 		p := x.unboxAny(args[0])
 		return ret(c.BoolLit(st.locks[p]))
+	case "LastCASOld":
+		if st.lastCASOld == nil {
+			return ret(c.IntLit(0))
+		}
+		return ret(st.lastCASOld)
 	case "AtomicWrites":
 		return ret(c.IntLit(int64(st.atomicWrites)))
 	case "TraceLen":
